@@ -4,7 +4,6 @@ import (
 	"fmt"
 	"go/token"
 	"go/types"
-	"strings"
 
 	"mrocheck/an"
 
@@ -78,6 +77,9 @@ func runC12(c *an.Ctx) {
 	runJobs := c.NeedFunc(pkgCore, "(*ResourceSemaphore).runJobs")
 
 	isAvail := func(v ssa.Value) bool { // curSize - reserved of the same object
+		if inner, ok := an.ReturnExpr(v); ok {
+			v = inner // a one-line accessor such as unreserved()
+		}
 		b, ok := v.(*ssa.BinOp)
 		if !ok || b.Op != token.SUB {
 			return false
@@ -125,14 +127,29 @@ func runC12(c *an.Ctx) {
 					if _, acq, isLock := an.LockOp(in); isLock && !acq {
 						w := an.Query{Fn: fn, After: in, Target: func(x ssa.Instruction) bool { return x == st },
 							BarrierEdge: func(from, to *ssa.BasicBlock) bool {
-								cnd, t, ok := an.EdgeCond(from, to)
-								return ok && fits(an.Normalize(cnd, t))
+								return an.EdgeHolds(from, to, fits)
 							}}.Find()
 						c.Check("K2", key+":same-critical-section", in.Pos(), w == nil,
 							"capacity test and grant separated by an Unlock; "+c.WitnessString(w))
 					}
 				})
-				fromQueue := strings.Contains(amtPath, "waiter")
+				// the amount is taken from an element of the waiter queue (structurally: its backward
+				// slice contains an access of ResourceSemaphore.waiters), not from a parameter
+				fromQueue := false
+				{
+					sl := newSlice(fn)
+					sl.add(amt)
+					for v := range sl.seen {
+						if an.LoadsField(v, waiters) {
+							fromQueue = true
+						}
+						if fa, ok := v.(*ssa.FieldAddr); ok {
+							if _, f := an.FieldOfAddr(fa); f == waiters {
+								fromQueue = true
+							}
+						}
+					}
+				}
 				if r := an.RootOf(amt); r != nil {
 					if _, isParam := r.(*ssa.Parameter); isParam {
 						fromQueue = false
@@ -259,22 +276,30 @@ func runC12(c *an.Ctx) {
 					nLock++
 					lostW = an.Query{Fn: fn, After: in, Target: func(x ssa.Instruction) bool { return x == ssa.Instruction(st) },
 						BarrierEdge: func(from, to *ssa.BasicBlock) bool {
-							cnd, t, ok := an.EdgeCond(from, to)
-							if !ok {
+							return an.EdgeHolds(from, to, func(r an.Rel) bool {
+								switch r.Op {
+								case token.GEQ, token.LSS, token.LEQ, token.GTR:
+									if (isAvail(r.X) && r.Y == amountParam) || (isAvail(r.Y) && r.X == amountParam) {
+										return true
+									}
+								}
+								// the queue was seen non-empty under this lock: queuing behind the others
+								// is decided in this critical section as well
+								isQLen := func(v ssa.Value) bool {
+									args, ok := an.IsBuiltinCall(v, "len")
+									return ok && an.LoadsField(args[0], waiters)
+								}
+								if (isQLen(r.X) && an.IsIntConst(r.Y, 0)) || (isQLen(r.Y) && an.IsIntConst(r.X, 0)) {
+									return r.Op == token.NEQ || r.Op == token.GTR || r.Op == token.LSS
+								}
 								return false
-							}
-							r := an.Normalize(cnd, t)
-							switch r.Op {
-							case token.GEQ, token.LSS, token.LEQ, token.GTR:
-								return (isAvail(r.X) && r.Y == amountParam) || (isAvail(r.Y) && r.X == amountParam)
-							}
-							return false
+							})
 						}}.Find()
 				}
 			})
 			if nLock > 0 {
 				c.Check("K5", "enqueue(waiters=append)@"+an.FnName(fn)+":decided-under-same-lock", st.Pos(), lostW == nil,
-					"after each acquisition of the mutex the capacity test (curSize-reserved vs the amount) must be crossed before the waiter is queued; a queue insertion based on a test made in an earlier critical section loses the wake-up of an intervening Release; "+c.WitnessString(lostW))
+					"after each acquisition of the mutex the capacity test (curSize-reserved vs the amount) or a non-empty-queue test must be crossed before the waiter is queued; a queue insertion based on a test made in an earlier critical section loses the wake-up of an intervening Release; "+c.WitnessString(lostW))
 			} else {
 				c.Undecided("K5", "enqueue(waiters=append)@"+an.FnName(fn)+":decided-under-same-lock", st.Pos(), "no mutex acquisition found in the enqueuing function")
 			}
@@ -361,27 +386,24 @@ func runC12(c *an.Ctx) {
 				},
 				Barrier: func(in ssa.Instruction) bool { return an.CalleeIs(in, runJobs) },
 				BarrierEdge: func(from, to *ssa.BasicBlock) bool {
-					cnd, t, ok := an.EdgeCond(from, to)
-					if !ok {
-						return false
-					}
-					r := an.Normalize(cnd, t)
-					// not grown: old >= new, where old is a load of curSize before the store and new is a
-					// load of curSize after it or the very value that was stored
-					isOld := func(v ssa.Value) bool { return an.LoadsField(v, curSize) && loadBefore(v, st) }
-					isNew := func(v ssa.Value) bool {
-						if v == st.Val {
-							return true
+					return an.EdgeHolds(from, to, func(r an.Rel) bool {
+						// not grown: old >= new, where old is a load of curSize before the store and new is a
+						// load of curSize after it or the very value that was stored
+						isOld := func(v ssa.Value) bool { return an.LoadsField(v, curSize) && loadBefore(v, st) }
+						isNew := func(v ssa.Value) bool {
+							if v == st.Val {
+								return true
+							}
+							return an.LoadsField(v, curSize) && !loadBefore(v, st)
 						}
-						return an.LoadsField(v, curSize) && !loadBefore(v, st)
-					}
-					if r.Op == token.GEQ && r.X != r.Y {
-						return isOld(r.X) && isNew(r.Y)
-					}
-					if r.Op == token.LEQ && r.X != r.Y {
-						return isOld(r.Y) && isNew(r.X)
-					}
-					return false
+						if r.Op == token.GEQ && r.X != r.Y {
+							return isOld(r.X) && isNew(r.Y)
+						}
+						if r.Op == token.LEQ && r.X != r.Y {
+							return isOld(r.Y) && isNew(r.X)
+						}
+						return false
+					})
 				}}.Find(), (*an.Witness)(nil)
 			_ = w
 			c.Check("K5", "resize(curSize=)@"+an.FnName(fn)+":wakeup", st.Pos(), ok == nil,
@@ -509,24 +531,21 @@ func spareEscapeOnly(fn *ssa.Function, after ssa.Instruction, running, limit *ty
 			return false
 		},
 		BarrierEdge: func(from, to *ssa.BasicBlock) bool {
-			cnd, t, ok := an.EdgeCond(from, to)
-			if !ok {
+			return an.EdgeHolds(from, to, func(r an.Rel) bool {
+				// spare != 1 reached after spare <= 1: accept the edge "spare != 1" only when the
+				// block is itself dominated by a "spare <= 1" edge
+				if r.Op == token.NEQ && isSpare(r.X) && an.IsIntConst(r.Y, 1) {
+					g, _ := an.GuardedBy(from.Instrs[len(from.Instrs)-1], func(r2 an.Rel) bool {
+						return (r2.Op == token.LEQ && isSpare(r2.X) && an.IsIntConst(r2.Y, 1)) ||
+							(r2.Op == token.LSS && isSpare(r2.X) && an.IsIntConst(r2.Y, 2))
+					})
+					return g
+				}
+				if (r.Op == token.LEQ && isSpare(r.X) && an.IsIntConst(r.Y, 0)) || (r.Op == token.LSS && isSpare(r.X) && an.IsIntConst(r.Y, 1)) {
+					return true
+				}
 				return false
-			}
-			r := an.Normalize(cnd, t)
-			// spare != 1 reached after spare <= 1: accept the edge "spare != 1" only when the
-			// block is itself dominated by a "spare <= 1" edge
-			if r.Op == token.NEQ && isSpare(r.X) && an.IsIntConst(r.Y, 1) {
-				g, _ := an.GuardedBy(from.Instrs[len(from.Instrs)-1], func(r2 an.Rel) bool {
-					return (r2.Op == token.LEQ && isSpare(r2.X) && an.IsIntConst(r2.Y, 1)) ||
-						(r2.Op == token.LSS && isSpare(r2.X) && an.IsIntConst(r2.Y, 2))
-				})
-				return g
-			}
-			if (r.Op == token.LEQ && isSpare(r.X) && an.IsIntConst(r.Y, 0)) || (r.Op == token.LSS && isSpare(r.X) && an.IsIntConst(r.Y, 1)) {
-				return true
-			}
-			return false
+			})
 		}}.Find()
 	return w == nil
 }
